@@ -150,9 +150,20 @@ CHECKS = {
                      'is executed on real RunTask objects with sh -c commands, directly and under the scheduler; random cases validated by TLC.',
                 note='single task per scheduler run; stderr tokens are checked as a subsequence (echo lines are extra)',
                 technique='TLA+ spec + TLC enumeration, replay with real subprocesses, TLC batch trace validation'),
+    'C16': dict(engine='DepGraph', category='model_checking', design_ref='DESIGN.md §4 C16',
+                text='DepGraph.tla (abstract node/edge sets, edit histories over graph variables, operator library for sort / reduction / closure / '
+                     'graft / flatten) and DepGraphImpl.tla (node sequence + key->positions index + integer adjacency, remove by swap-with-last) with '
+                     'a refinement check are model-checked: complete state spaces for alphabets of up to 4 names, all histories up to depth 3-4, all '
+                     'labelled DAGs on <= 4 (thorough 5) nodes, digraphs and one-level nested graphs including the empty one. TLC-generated '
+                     'histories and graph families are replayed on real DepGraph objects with aliasing detection across copies, inverses and sums; '
+                     'random histories of up to 30 operations are validated step by step by TLC (DepGraphTrace.tla).',
+                note='graft / flatten / reduction / closure and the recursive queries are specified on acyclic graphs; nested graphs one level deep; '
+                     'graft and flatten are judged on ordering preservation (exact-edge differences with the same ordering are drift)',
+                technique='TLA+ spec + refinement check + TLC enumeration of histories and graph families, replay, TLC trace validation'),
 }
 
 ENGINES = {
+    'DepGraph': dict(path='specs/DepGraph.tla', kind_free_text='abstract graph machine + DepGraphImpl.tla (layout, refinement) + DepGraphAlg.tla (graph families) + DepGraphTrace.tla; conf_depgraph.py'),
     'T4Doc': dict(path='specs/T4Doc.tla', kind_free_text='document model + Ap3File.tla + T4DocTrace.tla; conf_t4doc.py'),
     'T4Scan': dict(path='specs/T4Scan.tla', kind_free_text='scanner line-kind state machine + T4ScanTrace.tla; conf_t4scan.py'),
     'Persist': dict(path='specs/Persist.tla', kind_free_text='persistence/crash state machine + PersistTrace.tla; conf_persist.py'),
@@ -205,7 +216,7 @@ def main():
         checks=checks,
         notes='Model-based verification with explicit TLA+ specifications (specs/), checked by TLC and bound to the code by replay '
               '(spec->code) and batch trace validation (code->spec). See DESIGN.md.',
-        not_applicable=[dict(property_id=p, reason='check not built yet in this round (planned, see DESIGN.md §4)')
+        not_applicable=[dict(property_id=p, reason='check not built yet (planned, see DESIGN.md §4)')
                         for p in ALL if p not in CHECKS])
     with open(os.path.join(VERIF, 'MANIFEST.json'), 'w') as f:
         json.dump(man, f, indent=1)
